@@ -517,8 +517,18 @@ class GraphAddNode(Contract):
     def modifies(self, c):
         h, g, x = c.h0, c["self"], c["node_for_adding"]
         X = G(h, g)
-        return Frame(fields={"_node_id": [x], "_node_id#none": [x], "_next_node_id": [g], "$$gn": [X.nx]},
+        return Frame(fields={"_node_id": [x], "_node_id#none": [x], "_next_node_id": [g], "$$gn": [X.nx], "$$mpos": [g]},
                      lists=graph_lists_frame(h, g))
+
+    @property
+    def ghost_after(self):
+        def placed(c, st):
+            # ghost: position of the node in the machine row it was just appended to
+            h, g = st.heap, c["self"]
+            row = h.at(h.get("_nodes_by_machine", g), st.env["machine_id"].t)
+            k = h.get("_node_id", c["node_for_adding"])
+            st.heap = h.put("$$mpos", g, z3.Store(h.get("$$mpos", g), k, h.len((row, "c")) - 1))
+        return {"self._nodes_by_machine[machine_id].append(node_for_adding)": placed}
 
     def ensures(self, c):
         h0, h, g, x = c.h0, c.h, c["self"], c["node_for_adding"]
@@ -547,6 +557,17 @@ class GraphAddNode(Contract):
                           unchanged(h0, h, h0.at(X0.by_job, t))))), patterns=[h.at(X.by_job, t)]))),
             ("machine-table-keeps-its-rows", z3.And(X.by_machine == X0.by_machine, forall([t], imp(
                 rng(t, 0, it.NM), h.at(X.by_machine, t) == h0.at(X0.by_machine, t)), patterns=[h.at(X.by_machine, t)]))),
+            ("single-machine-operation-nodes-listed-under-their-machine", z3.And(
+                imp(z3.And(ty == T_OP, it.nmach(o) == 1), z3.And(
+                    z3.Select(h.get("$$mpos", g), X0.n) == h0.len(h0.at(X0.by_machine, mach0(h0, o))),
+                    forall([t], imp(rng(t, 0, it.NM), z3.If(t == mach0(h0, o), appended(h0, h, h0.at(X0.by_machine, t), x),
+                                                            unchanged(h0, h, h0.at(X0.by_machine, t)))),
+                           patterns=[h.at(X.by_machine, t)]))),
+                imp(ty != T_OP, z3.And(h.get("$$mpos", g) == h0.get("$$mpos", g), forall([t], imp(
+                    rng(t, 0, it.NM), unchanged(h0, h, h0.at(X0.by_machine, t))), patterns=[h.at(X.by_machine, t)]))),
+                imp(z3.Or(ty != T_OP, it.nmach(o) == 1), forall([bv("nk")], imp(
+                    bv("nk") != X0.n, z3.Select(h.get("$$mpos", g), bv("nk")) == z3.Select(h0.get("$$mpos", g), bv("nk"))),
+                    patterns=[z3.Select(h.get("$$mpos", g), bv("nk"))])))),
         ]
 
     @property
@@ -564,6 +585,17 @@ class GraphAddNode(Contract):
                 ("machine-rows-kept", forall([t], imp(rng(t, 0, it.NM), h.at(X.by_machine, t) == h0.at(X0.by_machine, t)),
                                              patterns=[h.at(X.by_machine, t)])),
                 ("iterating-the-machines-of-the-operation", k.n == it.nmach(k.v("operation"))),
+                ("single-machine:row-gets-the-node-in-the-first-iteration", imp(k.n == 1, z3.And(
+                    imp(k.i == 0, z3.And(h.get("$$mpos", g) == hl.get("$$mpos", g), forall([t], imp(
+                        rng(t, 0, it.NM), unchanged(hl, h, h0.at(X0.by_machine, t))), patterns=[h0.at(X0.by_machine, t)]))),
+                    imp(k.i == 1, z3.And(
+                        z3.Select(h.get("$$mpos", g), hl.get("_node_id", x)) == hl.len(h0.at(X0.by_machine, mach0(h0, k.v("operation")))),
+                        forall([bv("nk")], imp(bv("nk") != hl.get("_node_id", x), z3.Select(h.get("$$mpos", g), bv("nk")) ==
+                                               z3.Select(hl.get("$$mpos", g), bv("nk"))),
+                               patterns=[z3.Select(h.get("$$mpos", g), bv("nk"))]),
+                        forall([t], imp(rng(t, 0, it.NM), z3.If(
+                            t == mach0(h0, k.v("operation")), appended(hl, h, h0.at(X0.by_machine, t), x),
+                            unchanged(hl, h, h0.at(X0.by_machine, t)))), patterns=[h0.at(X0.by_machine, t)])))))),
             ]
 
         def mod(k):
@@ -571,7 +603,8 @@ class GraphAddNode(Contract):
             X0 = G(h0, g)
             it = Inst(h0, X0.I)
             t = bv("ft")
-            return Frame(lists=lambda l: z3.And(l > X0.by_machine, l < X0.by_job))    # the rows of the machine table
+            return Frame(fields={"$$mpos": [g]},
+                         lists=lambda l: z3.And(l > X0.by_machine, l < X0.by_job))    # the rows of the machine table
         return {0: LoopSpec("for machine_id in operation.machines", inv, mod)}
 
 
@@ -604,6 +637,38 @@ def op_nodes_by_index(h, g, I, upto):
                                                    it.cumL(it.jid(o)) + it.pos(o) == k)), patterns=[h.at(X.nodes, k)])
 
 
+def non_flexible(h, I):
+    it = Inst(h, I)
+    j, p = bv("j"), bv("p")
+    return forall([j, p], imp(z3.And(rng(j, 0, it.J), rng(p, 0, it.L(j))), it.nmach(it.op(j, p)) == 1), patterns=[it.op(j, p)])
+
+
+def machine_rows(h, g, I, upto):
+    """(non-flexible instances) the machine rows list exactly the operation nodes k < upto of that machine; ghost
+    mpos: node id -> index in its machine's row"""
+    X = G(h, g)
+    it = Inst(h, I)
+    k, m, q = bv("nk"), bv("mm"), bv("mq")
+    mp = lambda t: z3.Select(h.get("$$mpos", g), t)  # noqa: E731
+    o = h.get("_operation", X.node(k))
+    row = lambda t: h.at(X.by_machine, t)  # noqa: E731
+    nd = h.at(row(m), q)
+    kk = h.get("_node_id", nd)
+    return z3.And(
+        forall([k], imp(rng(k, 0, upto), z3.And(rng(mp(k), 0, h.len(row(mach0(h, o)))), h.at(row(mach0(h, o)), mp(k)) == X.node(k))),
+               patterns=[h.at(X.nodes, k)]),
+        forall([m, q], imp(z3.And(rng(m, 0, it.NM), rng(q, 0, h.len(row(m)))), z3.And(
+            rng(kk, 0, upto), X.node(kk) == nd, mach0(h, h.get("_operation", nd)) == m, mp(kk) == q)),
+            patterns=[h.at(h.at(X.by_machine, m), q)]))
+
+
+def other_type_rows_empty(h, g):
+    X = G(h, g)
+    t = bv("tt")
+    return forall([t], imp(z3.And(rng(t, 0, len(NODE_TYPES)), t != T_OP), h.len(h.at(X.by_type, t)) == 0),
+                  patterns=[h.at(X.by_type, t)])
+
+
 def job_rows_filled(h, g, I, upto_job, upto_pos=None):
     X = G(h, g)
     it = Inst(h, I)
@@ -622,15 +687,23 @@ def empty_graph(h, g):
     it = Inst(h, X.I)
     return [("no-nodes-yet", z3.And(X.n == 0, forall([t], imp(rng(t, 0, len(NODE_TYPES)), h.len(h.at(X.by_type, t)) == 0),
                                                     patterns=[h.at(X.by_type, t)]),
-                                    forall([t], imp(rng(t, 0, it.J), h.len(h.at(X.by_job, t)) == 0), patterns=[h.at(X.by_job, t)]))),
+                                    forall([t], imp(rng(t, 0, it.J), h.len(h.at(X.by_job, t)) == 0), patterns=[h.at(X.by_job, t)]),
+                                    forall([t], imp(rng(t, 0, it.NM), h.len(h.at(X.by_machine, t)) == 0),
+                                           patterns=[h.at(X.by_machine, t)]))),
             ("no-edges-yet", forall([u, v], ge(h, X.nx, u, v) == 0, patterns=[z3.Select(h.get("$$ge", X.nx), Pair(u, v))]))]
 
 
 def cum_facts(h, I):
+    """consequences, by induction, of the defining equations of the prefix sums cumL (stated as pre-conditions)"""
     it = Inst(h, I)
-    j, p_ = bv("j"), bv("p")
+    j, p_, j2_ = bv("j"), bv("p"), bv("j2")
+    t_op, t_cum = it.op(j, p_), it.cumL(j2_)
+    order_pattern = z3.MultiPattern(t_op, t_cum)
     return [("inst-index-bound", forall([j, p_], imp(z3.And(rng(j, 0, it.J), rng(p_, 0, it.L(j))), z3.And(
-        it.cumL(j) + p_ < it.N, it.cumL(j) >= 0, it.cumL(j) + it.L(j) <= it.N)), patterns=[it.op(j, p_)]))]
+        it.cumL(j) + p_ < it.N, it.cumL(j) >= 0, it.cumL(j) + it.L(j) <= it.N)), patterns=[it.op(j, p_)])),
+        ("inst-index-order", forall([j, p_, j2_], imp(
+            z3.And(0 <= j, j < j2_, j2_ <= it.J, 0 <= p_, p_ < it.L(j)), it.cumL(j) + p_ < it.cumL(j2_)),
+            patterns=[order_pattern]))]
 
 
 @register
@@ -647,15 +720,20 @@ class GraphAddOperationNodes(Contract):
             ("operations-numbered", numbered(h, X.I))]
 
     _NODES = ["nodes-so-far", "rows-so-far", "job", "same-graph-object", "inst-refs", "inst-jobs", "inst-ops", "inst-cum",
-              "inst-index-bound", "operations-numbered", "fields", "gets-the-next-id-and-is-appended", "listed-under-its-type",
+              "inst-index-bound", "inst-index-order", "operations-numbered", "fields", "gets-the-next-id-and-is-appended", "listed-under-its-type",
               "operation-nodes-listed-under-their-job", "G-shape", "G-node-ids", "T-sizes", "T-job-rows", "T-type-rows",
               "T-job-rows-distinct", "T-type-rows-distinct", "T-type-job-disjoint"]
-    relevant_strict = {"loop1:inv-preserved:nodes-so-far": _NODES, "loop1:inv-preserved:rows-so-far": _NODES}
+    _MROWS = ["machine-rows-so-far", "nodes-so-far", "job", "same-graph-object", "inst-refs", "inst-jobs", "inst-ops",
+              "inst-machines", "fields", "gets-the-next-id-and-is-appended", "machine-table-keeps-its-rows",
+              "single-machine-operation-nodes-listed-under-their-machine", "G-shape", "G-node-ids", "T-sizes", "T-layout",
+              "T-machine-rows", "T-machine-rows-distinct"]
+    relevant_strict = {"loop1:inv-preserved:nodes-so-far": _NODES, "loop1:inv-preserved:rows-so-far": _NODES,
+                       "loop1:inv-preserved:machine-rows-so-far": _MROWS}
 
     def modifies(self, c):
         h, g = c.h0, c["self"]
         X = G(h, g)
-        return Frame(fields={"_next_node_id": [g], "$$gn": [X.nx]}, lists=graph_lists_frame(h, g),
+        return Frame(fields={"_next_node_id": [g], "$$gn": [X.nx], "$$mpos": [g]}, lists=graph_lists_frame(h, g),
                      alloc_objects=NODE_FIELDS + ["$type"])
 
     def ensures(self, c):
@@ -666,7 +744,9 @@ class GraphAddOperationNodes(Contract):
         return graph_ok(h, g) + tables_ok(h, g) + [
             ("one-node-per-operation-with-node-id=operation-id", z3.And(X.n == it.N, op_nodes(h, g, X0.I),
                                                                         op_nodes_by_index(h, g, X0.I, it.N))),
-            ("job-rows-complete", z3.And(job_rows_filled(h, g, X0.I, it.J), h.len(h.at(X.by_type, T_OP)) == it.N)),
+            ("job-rows-complete", z3.And(job_rows_filled(h, g, X0.I, it.J), h.len(h.at(X.by_type, T_OP)) == it.N,
+                                         other_type_rows_empty(h, g))),
+            ("non-flexible:machine-rows-list-the-nodes-of-their-machine", imp(non_flexible(h0, X0.I), machine_rows(h, g, X0.I, it.N))),
             ("nothing-removed-no-edges", z3.And(
                 forall([i], imp(rng(i, 0, X.n), z3.Not(X.is_removed(i))), patterns=[h.at(X.removed, i)]),
                 h.get("$$ge", X.nx) == h0.get("$$ge", X0.nx))),
@@ -686,7 +766,9 @@ class GraphAddOperationNodes(Contract):
                 ("same-graph-object", z3.And(X.nx == X0.nx, X.I == X0.I, X.nodes == X0.nodes, X.by_type == X0.by_type,
                                              X.by_job == X0.by_job, X.by_machine == X0.by_machine, X.removed == X0.removed)),
                 ("nodes-so-far", z3.And(X.n == done, op_nodes(h, g, X0.I, j, p), op_nodes_by_index(h, g, X0.I, done))),
-                ("rows-so-far", z3.And(job_rows_filled(h, g, X0.I, j, p), h.len(h.at(X.by_type, T_OP)) == done)),
+                ("rows-so-far", z3.And(job_rows_filled(h, g, X0.I, j, p), h.len(h.at(X.by_type, T_OP)) == done,
+                                       other_type_rows_empty(h, g))),
+                ("machine-rows-so-far", imp(non_flexible(h0, X0.I), machine_rows(h, g, X0.I, done))),
                 ("nothing-removed-no-edges", z3.And(
                     forall([i], imp(rng(i, 0, X.n), z3.Not(X.is_removed(i))), patterns=[h.at(X.removed, i)]),
                     h.get("$$ge", X.nx) == h0.get("$$ge", X0.nx))),
@@ -703,7 +785,7 @@ class GraphAddOperationNodes(Contract):
         def mod(k):
             h0, g = k.h0, k["self"]
             X0 = G(h0, g)
-            return Frame(fields={"_next_node_id": [g], "$$gn": [X0.nx]}, lists=graph_lists_frame(h0, g),
+            return Frame(fields={"_next_node_id": [g], "$$gn": [X0.nx], "$$mpos": [g]}, lists=graph_lists_frame(h0, g),
                          alloc_objects=NODE_FIELDS + ["$type"])
         return {0: LoopSpec("for job in self.instance.jobs", outer, mod), 1: LoopSpec("for operation in job", inner, mod)}
 
@@ -723,7 +805,7 @@ class GraphInit(Contract):
 
     def modifies(self, c):
         g = c["self"]
-        f = {n: [g] for n in GRAPH_FIELDS}
+        f = {n: [g] for n in GRAPH_FIELDS + ["$$mpos"]}
         return Frame(fields=f, alloc_objects=NODE_FIELDS + ["$type", "$$gn", "$$ge"], alloc_lists=True)
 
     def ensures(self, c):
@@ -735,9 +817,12 @@ class GraphInit(Contract):
         u, v = bv("gu"), bv("gv")
         return graph_ok(h, g) + tables_ok(h, g) + [
             ("instance-kept", X.I == I),
+            ("new-networkx-graph-and-lists", z3.And(X.nx >= h0.alloc, X.nodes >= h0.alloc)),
             ("with-operation-nodes:one-node-per-operation-with-node-id=operation-id",
              imp(flag, z3.And(X.n == it.N, op_nodes(h, g, I), op_nodes_by_index(h, g, I, it.N), job_rows_filled(h, g, I, it.J),
-                              h.len(h.at(X.by_type, T_OP)) == it.N))),
+                              h.len(h.at(X.by_type, T_OP)) == it.N, other_type_rows_empty(h, g)))),
+            ("with-operation-nodes,non-flexible:machine-rows-list-the-nodes-of-their-machine",
+             imp(z3.And(flag, non_flexible(h0, I)), machine_rows(h, g, I, it.N))),
             ("without:no-nodes", imp(z3.Not(flag), X.n == 0)),
             ("nothing-removed-no-edges", z3.And(
                 forall([i], imp(rng(i, 0, X.n), z3.Not(X.is_removed(i))), patterns=[h.at(X.removed, i)]),
@@ -872,6 +957,10 @@ def op_graph(h, g):
         ("operation-nodes-first", z3.And(X.n >= it.N, op_nodes(h, g, X.I), op_nodes_by_index(h, g, X.I, it.N),
                                          job_rows_filled(h, g, X.I, it.J), h.len(h.at(X.by_type, T_OP)) == it.N)),
         ("nothing-removed", forall([i], imp(rng(i, 0, X.n), z3.Not(X.is_removed(i))), patterns=[h.at(X.removed, i)]))]
+
+
+def mach0(h, o):
+    return h.at(h.get("machines", o), 0)
 
 
 def op_of(h, g, k):
@@ -1056,3 +1145,111 @@ class AddSourceSinkEdges(_Builder):
             X = G(k.h0, k["graph"])
             return Frame(fields={"$$ge": [X.nx], "$$gn": [X.nx]})
         return {0: LoopSpec("for job_operations in graph.nodes_by_job", inv, mod)}
+
+
+from pyvc.library import CombA, CombB, CombK, CombN  # noqa: E402
+
+
+@register
+class AddDisjunctiveEdges(_Builder):
+    """(non-flexible instances) both directions between every two operations that share their machine"""
+    name = "add_disjunctive_edges"
+
+    def requires(self, c):
+        h, g = c.h0, c["graph"]
+        X = G(h, g)
+        it = Inst(h, X.I)
+        return op_graph(h, g) + [("non-flexible-instance", non_flexible(h, X.I)),
+                                 ("machine-rows", machine_rows(h, g, X.I, it.N))]
+
+    def upd(self, h0, g, limit=None):
+        X = G(h0, g)
+        it = Inst(h0, X.I)
+
+        def f(u, v, old):
+            mu, mv = mach0(h0, op_of(h0, g, u)), mach0(h0, op_of(h0, g, v))
+            cond = z3.And(rng(u, 0, it.N), rng(v, 0, it.N), u != v, mu == mv)
+            if limit is not None:
+                cond = z3.And(cond, limit(u, v, mu))
+            return z3.If(cond, z3.IntVal(E_DISJ + 1), old)
+        return f
+
+    def ensures(self, c):
+        h0, h, g = c.h0, c.h, c["graph"]
+        return graph_ok(h, g) + self.kept(c) + [
+            ("exactly-both-directions-between-operations-sharing-a-machine-typed-disjunctive",
+             edges_updated(h0, h, G(h0, g).nx, self.upd(h0, g)))]
+
+    @property
+    def loops(self):
+        def common(k, lim):
+            h0, h, g = k.h0, k.h, k["graph"]
+            x = bv("gx")
+            X0 = G(h0, g)
+            return graph_ok(h, g) + [
+                ("same-graph-object", same_graph(h0, h, g)),
+                ("node-set-unchanged", forall([x], gn(h, X0.nx, x) == gn(h0, X0.nx, x), patterns=[z3.Select(h.get("$$gn", X0.nx), x)])),
+                ("edges-so-far", edges_updated(h0, h, X0.nx, self.upd(h0, g, lim)))]
+
+        def outer(k):
+            return common(k, lambda u, v, m: m < k.i)
+
+        def inner(k):
+            h0, g = k.h0, k["graph"]
+            X0 = G(h0, g)
+            it = Inst(h0, X0.I)
+            m0 = k.outer[-1]
+            row = h0.at(X0.by_machine, m0)
+            n = h0.len(row)
+            mp = lambda t: z3.Select(h0.get("$$mpos", g), t)  # noqa: E731
+
+            def lim(u, v, m):
+                lo = z3.If(mp(u) < mp(v), mp(u), mp(v))
+                hi = z3.If(mp(u) < mp(v), mp(v), mp(u))
+                return z3.Or(m < m0, z3.And(m == m0, CombK(n, lo, hi) < k.i))
+            return [("row", z3.And(k.v("machine") == row, rng(m0, 0, it.NM), k.n == CombN(n)))] + common(k, lim)
+
+        def mod(k):
+            X = G(k.h0, k["graph"])
+            return Frame(fields={"$$ge": [X.nx], "$$gn": [X.nx]})
+        return {0: LoopSpec("for machine in graph.nodes_by_machine", outer, mod),
+                1: LoopSpec("for (node1, node2) in itertools.combinations(machine, 2)", inner, mod)}
+
+
+@register
+class BuildDisjunctiveGraph(Contract):
+    name = "build_disjunctive_graph"
+    properties = ("C16",)
+    params = {"instance": REF("JobShopInstance")}
+    ret = REF("JobShopGraph")
+    defaultdict_size = len(NODE_TYPES)
+
+    def requires(self, c):
+        from .instance import numbered
+        h, I = c.h0, c["instance"]
+        return valid_instance(h, I) + cum_facts(h, I) + [("operations-numbered", numbered(h, I)),
+                                                         ("non-flexible-instance", non_flexible(h, I))]
+
+    def modifies(self, c):
+        return Frame(alloc_objects=NODE_FIELDS + GRAPH_FIELDS + ["$type", "$$gn", "$$ge", "$$mpos"], alloc_lists=True)
+
+    def ensures(self, c):
+        h0, h, I, g = c.h0, c.h, c["instance"], c.result
+        X = G(h, g)
+        it = Inst(h0, I)
+        u, v = bv("eu"), bv("ev")
+        S, T = it.N, it.N + 1
+        ou, ov = op_of(h, g, u), op_of(h, g, v)
+        first = z3.And(u == S, rng(v, 0, it.N), it.pos(ov) == 0)
+        last = z3.And(v == T, rng(u, 0, it.N), it.pos(ou) == it.L(it.jid(ou)) - 1)
+        chain = z3.And(rng(u, 0, it.N), v == u + 1, v < it.N, it.jid(ou) == it.jid(ov))
+        share = z3.And(rng(u, 0, it.N), rng(v, 0, it.N), u != v, mach0(h0, ou) == mach0(h0, ov))
+        want = z3.If(z3.Or(first, last, chain), z3.IntVal(E_CONJ + 1), z3.If(share, z3.IntVal(E_DISJ + 1), z3.IntVal(0)))
+        return [
+            ("a-new-graph-of-this-instance", z3.And(g >= h0.alloc, g < h.alloc, X.I == I)),
+            ("one-node-per-operation-then-source-then-sink", z3.And(
+                X.n == it.N + 2, op_nodes(h, g, I), op_nodes_by_index(h, g, I, it.N),
+                h.get("node_type", X.node(S)) == T_SOURCE, h.get("node_type", X.node(T)) == T_SINK)),
+            ("exactly-the-prescribed-edges-correctly-typed", forall([u, v], ge(h, X.nx, u, v) == want,
+                                                                     patterns=[z3.Select(h.get("$$ge", X.nx), Pair(u, v))])),
+        ] + graph_ok(h, g)
